@@ -7,6 +7,7 @@ import BufrModel.Drv.JsonUtil
 import BufrModel.Drv.State
 import BufrModel.Drv.BitsOp
 import BufrModel.Drv.PathOp
+import BufrModel.Drv.CoderOp
 open Lean Bufr.Drv
 
 /-- stateless operations: one line per op (keep sorted by property to ease merging) -/
@@ -18,7 +19,10 @@ def statelessOps : List (String × (Json → J Json)) := [
 
 /-- operations that read or change the driver state -/
 def statefulOps : List (String × (DrvState → Json → J (DrvState × Json))) := [
-  ("tables", opTables)
+  ("tables", opTables),
+  ("dec-data", opDecData),
+  ("enc-data", opEncData),
+  ("gen-data", opGenData)
 ]
 
 def dispatch (st : DrvState) (j : Json) : J (DrvState × Json) := do
